@@ -40,11 +40,12 @@ class Gen:
             if rng.random() < prof.params:
                 k = rng.randint(1, 2)
                 ps = []
+                p1 = rng.choice(["x", "x", "a"])          # 'a'/'b' shadow the globals of the same name
                 for i in range(k):
-                    pn = ["x", "y"][i]
+                    pn = [p1, rng.choice(["y", "y", "b"])][i]
                     d = None
                     if i > 0 and rng.random() < 0.6:
-                        d = rng.choice(["0", "x + 1", "a", "x * 2"])
+                        d = rng.choice(["0", f"{p1} + 1", "c", f"{p1} * 2"])
                     ps.append((pn, d))
                 self.sig[nm] = ps
         self.hooks = []
@@ -307,7 +308,10 @@ class Gen:
         for _ in range(nch):
             out.append(self.choice_line(scope))
         if name == "Start":
-            for h in self.hooks[:1]:
+            first = self.hooks[:1]
+            if len(self.hooks) > 1 and r.random() < 0.5:
+                first = [self.hooks[-1], self.hooks[0]]       # registration order is not alphabetical order
+            for h in reversed(first):
                 out.insert(11, f"@hook turn_end {h}")
             for j in self.joins:
                 out.append(f"+ [Enter {j}] -> {j}")
@@ -338,20 +342,31 @@ class Gen:
         for sec in range(nsec):
             for k in range(r.randint(1, 3)):
                 mark = "*" if r.random() < self.p.one_time else "+"
-                cond = "{" + self.cond_expr() + "} " if r.random() < 0.25 else ""
-                out.append(f"{mark} {cond}[Join {sec}.{k}] -> @join")
+                cond = "{" + r.choice([self.cond_expr(), "jn >= 0", f"jn > {r.randint(0, 2)}", "jn % 2 == 0"]) + "} " \
+                    if r.random() < 0.35 else ""
+                shown = " {jn}" if r.random() < 0.3 else ""
+                out.append(f"{mark} {cond}[Join {sec}.{k}{shown}] -> @join")
                 for _ in range(r.randint(0, 2)):
                     kk = r.random()
-                    if kk < 0.5:
+                    if kk < 0.45:
                         out.append("    " + r.choice(["You did it", "Chosen", "Fine"]) + f" {sec}.{k} {{jn}}")
-                    elif kk < 0.85:
+                    elif kk < 0.75:
                         out.append("    ~ " + r.choice(["jn = jn + 1", self.stmt()]))
                     elif self.hooks:
-                        out.append(f"    @{r.choice(['hook', 'unhook'])} turn_end {r.choice(self.hooks)}")
+                        out.append(f"    @{r.choice(['hook', 'unhook', 'unhook'])} turn_end {r.choice(self.hooks)}")
+                        self.tag("hookcmd-in-join-block")
             if r.random() < 0.6:
                 out.append(self.choice_line())
             out.append("@join")
             out.append(f"Section {sec + 1} text {{jn}}")
+            if r.random() < 0.5:
+                # statements that run while the text between the markers is rendered: the next section's
+                # choices (conditions, interpolated texts) must see their effect
+                out += [f"@if jn >= {r.randint(0, 1)}:", "    ~ jn = jn + " + str(r.randint(1, 2)),
+                        "    Counted {jn}", "@endif"]
+                self.tag("join-section-block-stmt")
+            if r.random() < 0.25:
+                out += ["@for q in [1, 2]:", "    ~ jn = jn + q", "@endfor"]
             if r.random() < 0.3:
                 out.append("~ n = n + 1")
         out.append(self.choice_line())
@@ -369,7 +384,7 @@ class Gen:
         return "\n".join(lines)
 
 
-def gen_ops(rng: random.Random, n: int, style: str = "mixed"):
+def gen_ops(rng: random.Random, n: int, style: str = "mixed", saveload: bool = False):
     """Operation history: indices are resolved at run time modulo the number of offered choices when
     they are meant to be valid ('v'), or used literally when meant to be invalid."""
     ops = []
@@ -377,6 +392,8 @@ def gen_ops(rng: random.Random, n: int, style: str = "mixed"):
         k = rng.random()
         if style == "choose-only":
             ops.append(("choose_valid", rng.randint(0, 5)))
+        elif saveload and rng.random() < 0.12:
+            ops.append(rng.choice([("reload",), ("save",), ("load",), ("save",), ("load",)]))
         elif k < 0.5:
             ops.append(("choose_valid", rng.randint(0, 5)))
         elif k < 0.58:
